@@ -187,8 +187,56 @@ def r2_cookie(ctx):
     return r
 
 
+def r3_own_options(ctx):
+    """locale::resolve_locale_with_options: every path computes the answer from this call's own options (MIR paths)"""
+    import mirsum
+    r = Rule("C15.R3", "resolve_locale_with_options answers from its own options only",
+             "`the documented order: cookie (when enabled, under the given name), then the request's languages, then the default`: an answer "
+             "remembered from an earlier call (other cookie name, cookies disabled) skips the sources of this call", floor=2)
+    prog = ctx.mir("main")
+    b = prog.body("leptos_i18n::locale::resolve_locale_with_options")
+    if b is None:
+        r.missing("locale::resolve_locale_with_options")
+        return r
+    ps = mirsum.paths(prog, b, depth=3, stop=r"fetch_locale::resolve_locale$|use_cookie_with_options", max_paths=200)
+    if ps is None:
+        r.viol("R3:resolve_locale_with_options#paths", "the function loops or has too many paths", file=b.file, line=b.line)
+        return r
+    allowed = re.compile(r"(prelude::signal|signal::signal|Into<.*>>::into|Into::into|GetUntracked>?::get_untracked|Deref>?::deref|use_cookie_with_options|fetch_locale::resolve_locale|Default>?::default|Clone>?::clone|From<.*>>::from|From::from)(::<.*>)?$")
+    n = 0
+    for conds, trace, ret in ps:
+        n += 1
+        rt = mirsum.fmt(ret)
+        ct = " & ".join(mirsum.fmt(c) for c in conds)
+        m = re.match(r"^fetch_locale::resolve_locale\((.*), p1\.ssr_lang_header_getter\)$", rt)
+        if not m:
+            r.viol("R3:resolve_locale_with_options#result", "on the path [%s] the result is `%s`, not fetch_locale::resolve_locale(<cookie of this call>, <this call's header getter>)" % (ct, rt[:160]), file=b.file, line=b.line)
+            break
+        cookie = m.group(1)
+        uses_cookie = "use_cookie_with_options(Deref::deref(p1.cookie_name), p1.cookie_options)" in cookie
+        none_cookie = re.search(r"signal\(Option#None\(\)\)", cookie) is not None
+        if not (uses_cookie or none_cookie) or (uses_cookie and "p1.enable_cookie != 0" not in ct) or (none_cookie and "p1.enable_cookie != 0" in ct):
+            r.viol("R3:resolve_locale_with_options#cookie", "on the path [%s] the cookie source is `%s`: expected the cookie named by this call's options when enabled, else none" % (ct, cookie[:160]), file=b.file, line=b.line)
+            break
+        foreign = [c[1] for c in trace if c[0] == "call" and not allowed.search(c[1])]
+        if foreign:
+            r.viol("R3:resolve_locale_with_options#ambient", "on the path [%s] the function also consults / writes %s" % (ct, sorted(set(mirsum._short(x) for x in foreign))[:4]), file=b.file, line=b.line)
+            break
+    else:
+        r.inst("resolve_locale_with_options", "%d paths: resolve_locale(cookie of this call's name iff enabled, this call's header getter); no other state consulted" % n)
+    b2 = prog.body("leptos_i18n::locale::resolve_locale")
+    if b2 is not None:
+        ps2 = mirsum.paths(prog, b2, depth=0, max_paths=20)
+        ok = ps2 is not None and all(mirsum.fmt(ret) == "locale::resolve_locale_with_options(Default::default())" for _c, _t, ret in ps2)
+        if ok:
+            r.inst("resolve_locale", "resolve_locale_with_options(Default::default())")
+        else:
+            r.viol("R3:resolve_locale", "resolve_locale is no longer resolve_locale_with_options(default options): %s" % ([mirsum.fmt(x[2]) for x in ps2] if ps2 else None), file=b2.file, line=b2.line)
+    return r
+
+
 def run(ctx):
-    return [r1_chains(ctx), r2_cookie(ctx)]
+    return [r1_chains(ctx), r2_cookie(ctx), r3_own_options(ctx)]
 
 
 MANIFEST_ENTRY = {
